@@ -145,7 +145,7 @@ def junction_gadgets(tier):
     return [("single", 2), ("residual", 2), ("fan", 3), ("chain", 3), ("diamond", 4), ("res_chain", 3)]
 
 
-def build_gadget(spec, gadget, props, jinit, inflow=("probability", None, 0.5), psrc="const"):
+def build_gadget(spec, gadget, props, jinit, inflow=("probability", None, 0.5), psrc="const", two_in=False):
     """Attach the gadget between a and {b, c}.  props: list of proportion values"""
 
     def P(i, v):
@@ -163,6 +163,8 @@ def build_gadget(spec, gadget, props, jinit, inflow=("probability", None, 0.5), 
         return n
 
     add_edge(spec, "a", "j1", inflow, name="tj")
+    if two_in:
+        add_edge(spec, "b", "j1", ("rate", None, 0.3), name="tj2")
     if gadget == "single":
         _junc(spec, "j1", jinit)
         spec["links"] += [["j1", "b", P(0, props[0])], ["j1", "c", P(1, props[1])]]
@@ -215,13 +217,15 @@ def junctions(tier):
             for jinit in (0.0, 50.0):
                 for dt in DTS[tier][:3] if tier == "quick" else [1.0, 0.25, 1 / 12, 0.3]:
                     lv = levels if n <= 3 else ([0.0, 0.5, 1.5] if tier == "quick" else [0.0, 0.5, 1.0, 1.5])
-                    for props in itertools.product(lv, repeat=n):
+                    for props, two_in in itertools.product(itertools.product(lv, repeat=n), (False, True)):
                         if psrc != "const" and dt != 0.25:
                             continue
+                        if two_in and (gadget in ("single", "residual") or dt == 1.0) and tier == "quick":
+                            continue
                         spec = _jbase(dt, jinit)
-                        build_gadget(spec, gadget, list(props), jinit, psrc=psrc)
+                        build_gadget(spec, gadget, list(props), jinit, psrc=psrc, two_in=two_in)
                         spec["tag"] = "junctions"
-                        spec["gadget"] = dict(name=gadget, props=list(props), psrc=psrc, jinit=jinit, ok=gadget_domain_ok(gadget, list(props), scale_min=0.5 if psrc == "fn" else 1.0))
+                        spec["gadget"] = dict(name=gadget, props=list(props), psrc=psrc, jinit=jinit, two_in=two_in, ok=gadget_domain_ok(gadget, list(props), scale_min=0.5 if psrc == "fn" else 1.0))
                         if psrc == "tv":
                             # the time-varying series changes the values; domain must hold at both ends
                             p2 = [max(0.0, v - 0.2) if v > 0 else 0.3 * (i == 0) for i, v in enumerate(props)]
@@ -242,7 +246,7 @@ def durations(dt, tier):
 
 def timed(tier):
     """a (timed, D) --flush--> b ; optional extra ordinary outflow a->c ; inflow c->a, b->a ; variants with a duration group"""
-    for struct in ("single", "group", "group_junction", "two_pops"):
+    for struct in ("single", "group", "group_junction", "group_junction2", "group_resjunction", "two_pops"):
         for dt in DTS[tier][:3] if tier == "quick" else [1.0, 0.25, 1 / 12, 0.1, 0.3, 1 / 52]:
             for lab, D in durations(dt, tier):
                 for extra in (None, 0.3, "over"):
@@ -266,6 +270,18 @@ def timed(tier):
                             spec["comps"].append(dict(name="jt", kind="junc", default=0))
                             spec["pars"] += [dict(name="mv", fmt="probability", val=0.4), dict(name="s1", fmt="proportion", val=0.3), dict(name="s2", fmt="proportion", val=0.7)]
                             spec["links"] += [["a", "b", "dur"], ["a2", "b", "dur"], ["a3", "b", "dur"], ["a", "jt", "mv"], ["jt", "a2", "s1"], ["jt", "a3", "s2"]]
+                        elif struct in ("group_junction2", "group_resjunction"):
+                            # a and a2 both feed the in-group junction jt (two time-preserving inflows); jt -> a3, a4 (residual variant: a4 via '>')
+                            for nm, v0 in (("a2", 15.0), ("a3", 0.0), ("a4", 5.0)):
+                                spec["comps"].append(dict(name=nm, kind="ord", init=0.0 if (ainit == 0 and nm != "a2") else v0))
+                            spec["comps"].append(dict(name="jt", kind="junc", default=0))
+                            spec["pars"] += [dict(name="mv", fmt="probability", val=0.4), dict(name="mv2", fmt="rate", val=0.9), dict(name="s1", fmt="proportion", val=0.3)]
+                            spec["links"] += [[c, "b", "dur"] for c in ("a", "a2", "a3", "a4")] + [["a", "jt", "mv"], ["a2", "jt", "mv2"], ["jt", "a3", "s1"]]
+                            if struct == "group_junction2":
+                                spec["pars"].append(dict(name="s2", fmt="proportion", val=0.9))
+                                spec["links"].append(["jt", "a4", "s2"])
+                            else:
+                                spec["links"].append(["jt", "a4", ">"])
                         elif struct == "two_pops":
                             spec["pops"] = ["pa", "pb"]
                             spec["pars"][0]["val"] = {"pa": D, "pb": 2 * D if D >= dt else 3 * dt}
